@@ -44,6 +44,16 @@ chk("C10","exploration","offline checker over the downstream event log (zero eve
  "Held on the mutants and payloads explored: no invalid operation produced a downstream request and all were answered with errors + data:null; every injected downstream error arrived with message, extensions and path intact (multiset matching).",
  "Trusted: gqlparser validation against the captured merged schema to decide that a mutant is invalid.","DESIGN.md §5 C10")
 
+chk("C11","fault_enumeration","exhaustive small-scope enumeration (N x m x completion order x failing chunk x kind) of the real MultiOpQueryer over a recording, gated RoundTripper; race detector as a verdict",
+ "The (N, m, order, failing chunk, kind) space within the stated bounds is enumerated completely: N results in request order, each request in exactly one call, no call above m, an error and nil result when a call fails, under every completion order of <= 4 chunks (sampled beyond).",
+ "Trusted: the gate (releases a call only when all chunk calls are pending); watchdog expiry only weakens ordering control.","DESIGN.md §5 C11")
+chk("C13","exploration","repeat-and-compare runtime monitor: canonical plans over 30 plannings, responses and downstream multisets over repeated requests on one and on fresh gateways, under hook jitter and varied service delays; race detector as a verdict",
+ "Held on the operations explored (full feature profile, plain and caching planner, with concurrently failing steps): identical canonical plans, identical data, equal error multisets, identical per-service sub-request multisets.",
+ "Trusted: deterministic fake services.","DESIGN.md §5 C13")
+chk("C20","exploration","direct stress of common.AsyncMapReduce under hook-driven schedule perturbation (jitter, forced completion orders, directed point pairs) with call counters, CAS overlap flag, post-return settle check, goroutine-leak monitor and the race detector",
+ "Held on the calls explored: each item mapped once, each success reduced once and never concurrently, nothing happens after return, errors returned as injected, accumulator equals the fold, no goroutine left, no race.",
+ "Trusted: hook points placed before each channel operation; the 'exhaustive on a model' half of the quantifier is outside this technique family (see DESIGN.md).","DESIGN.md §5 C20")
+
 claimed=set(C)
 na=[{"property_id":p['id'],"reason":"check under construction in this round; not claimed yet"} for p in props if p['id'] not in claimed]
 m={"version":1,"setup_cmd":"./run.sh build && ./run.sh selftest",
